@@ -199,6 +199,7 @@ inspect_st = st.fixed_dictionaries({
     'date': st.sampled_from(HDR_DATE), 'desc': st.sampled_from(HDR_DESC), 'amt': st.sampled_from(HDR_AMT),
     'loc': st.one_of(st.none(), st.sampled_from(HDR_LOC)),
     'decoys': st.lists(st.sampled_from(HDR_DECOY), max_size=5),
+    'datestyle': st.sampled_from(['%m/%d/%Y', '%m/%d/%Y', '%Y-%m-%d', '%d.%m.%Y', '%b %d, %Y', '%d %b %Y', '%B %d, %Y']),
     'perm': st.integers(0, 10 ** 6), 'drop': st.sampled_from([None, None, None, 'date', 'desc', 'amt']),
     'rows': st.lists(st.tuples(st.dates(min_value=__import__('datetime').date(2021, 1, 1), max_value=__import__('datetime').date(2026, 12, 31)),
                                st.sampled_from(['NETFLIX.COM', 'UBER *EATS', 'COFFEE, SHOP', 'AMZN "MKTP"', 'x']), st.integers(-99999, 99999).filter(lambda c: c != 0)).map(list),
@@ -226,7 +227,7 @@ def check_inspect(case, stats: Stats):
     for d, desc, cents in case['rows']:
         row = []
         for kind, _ in cols:
-            row.append({'date': d.strftime('%m/%d/%Y') if hasattr(d, 'strftime') else __import__('datetime').date.fromisoformat(d).strftime('%m/%d/%Y'), 'desc': desc,
+            row.append({'date': (d if hasattr(d, 'strftime') else __import__('datetime').date.fromisoformat(d)).strftime(case.get('datestyle', '%m/%d/%Y')), 'desc': desc,
                         'amt': f'{cents / 100:.2f}', 'loc': 'Seattle', 'decoy': 'zz'}[kind])
         w.writerow(row)
     text = buf.getvalue()
@@ -260,7 +261,9 @@ def check_inspect(case, stats: Stats):
         txns = parse_generic_csv(path, spec, [], source_name='X')
     except Exception as e:
         raise Violation(f'parse_generic_csv with the suggested format {fmt!r} raised {type(e).__name__}: {e}', jcase, 'inspect-parse')
-    if kinds[spec.date_column] == 'date' and kinds[spec.amount_column] == 'amt' and kinds[spec.description_column] == 'desc':
+    if case.get('datestyle', '%m/%d/%Y') != '%m/%d/%Y':
+        classes.add('inspect_other_date_style')  # the statement does not promise the suggested DATE FORMAT fits the data: acceptance and columns only
+    elif kinds[spec.date_column] == 'date' and kinds[spec.amount_column] == 'amt' and kinds[spec.description_column] == 'desc':
         if len(txns) != len(case['rows']):
             raise Violation(f'the suggested format {fmt!r} reads {len(txns)} of {len(case["rows"])} rows\nfile:\n{text}', jcase, 'inspect-rows')
         for t, (d, desc, cents) in zip(txns, case['rows']):
